@@ -180,7 +180,7 @@ def run_case(case):
             s.fail('ike-sa-sets-differ', f'after the drain {x} and {y} hold different established IKE_SAs: {ax} / {ay}')
     for side, ep in s.eps.items():
         for q in ep.sas:
-            if q.state in (State.REKEYED, State.DELETED):
+            if q.state == State.DELETED:
                 s.fail('ended-ike-sa-left-behind', f'endpoint {side} still lists an IKE_SA in state {q.state.name} after the drain')
     return s.fails, {'classes': sorted(rt.classes), 'max_concurrent': rt.max_concurrent}, s
 
